@@ -219,6 +219,9 @@ def main(tier, seed):
     from standins import level2
 
     rep = Report(PID, tier, seed, "proof")
+    from engine import crosscheck
+
+    crosscheck.attach(rep, seed)
     rep.assumed_contract("core field functions are linear in their excitation argument: PROVED here (linearity typing of the real code's term) for magnet_cuboid_Bfield, "
                          "triangle_Bfield, dipole_Hfield; ASSUMED for current_circle_Hfield, current_polyline_Hfield")
     rep.assume("Cylinder / CylinderSegment / TriangularMesh linearity: numeric stand-in only (polarization re-parametrised through "
